@@ -236,7 +236,9 @@ class BodyMarkuper:
         self.abs_start_section = abs_start_section
 
     def _eat_start_boundary(self, chunk: bytes, base: int):
-        if self.trest is None:
+        # only the very first bytes of the body say whether it starts properly;
+        # later buffers just continue the scan for the first delimiter
+        if self.trest is None and self.abspos == 0:
             chunk_start = chunk[base: base + 1]
             if not chunk_start:
                 return
